@@ -144,6 +144,21 @@ pub fn gen(stream: &str, tier: &str, seed: u64) -> Vec<String> {
                     }
                 }
             }
+            // COMPONENT LENGTHS: share name, filter part and a single level swept through the lengths where an
+            // index kept in a narrower integer wraps (256·k, 65,536-ish) — in bytes and in multi-byte characters
+            for n in [1usize, 2, 126, 127, 128, 129, 254, 255, 256, 257, 258, 510, 511, 512, 513, 514, 767, 768, 769, 1023, 1024, 1025, 4095, 4096, 4097, 16_383, 16_384, 32_767, 32_768] {
+                for unit in ["g", "é"] {
+                    if n % unit.len() != 0 {
+                        continue;
+                    }
+                    let c = unit.repeat(n / unit.len());
+                    out.push(format!("{} {}", op, hex(format!("$share/{}/t", c).as_bytes())));
+                    out.push(format!("{} {}", op, hex(format!("$share/{}/+/#", c).as_bytes())));
+                    out.push(format!("{} {}", op, hex(format!("$share/g/{}", c).as_bytes())));
+                    out.push(format!("{} {}", op, hex(format!("a/{}/b", c).as_bytes())));
+                    out.push(format!("{} {}", op, hex(format!("$SYS/{}", c).as_bytes())));
+                }
+            }
             // DEPTH: many levels (a level counter kept in a u8 / u16 wraps at 256 / 65,536 levels)
             for n in [254usize, 255, 256, 257, 258, 259, 260, 511, 512, 513, 1023, 1024, 1025, 4095, 4096, 32_767] {
                 let deep = vec!["a"; n].join("/");
@@ -224,6 +239,23 @@ pub fn gen(stream: &str, tier: &str, seed: u64) -> Vec<String> {
                 let len = 1 + rng.below(5) as usize;
                 let bytes: Vec<u8> = (0..len).map(|_| rng.next() as u8).collect();
                 out.push(format!("{} {}", op, hex(&bytes)));
+            }
+        }
+        "mixed" => {
+            // ops of BOTH families and of every kind interleaved in one process, each op repeated later in the
+            // stream: a result must not depend on what was decoded or encoded before (hidden static state,
+            // caches keyed on the previous packet, a family flag left behind)
+            let mut pool: Vec<String> = Vec::new();
+            for st in ["v3dec", "v5dec", "v3enc", "v5enc", "cross", "v5props", "tf", "tn", "proto"] {
+                let ops = gen(st, "quick", seed);
+                let step = (ops.len() / (if thorough { 6000 } else { 1500 })).max(1);
+                pool.extend(ops.into_iter().step_by(step).filter(|l| l.len() < 4000));
+            }
+            let n = pool.len();
+            for k in 0..(3 * n) {
+                // a fixed pseudo-random walk that visits every op three times in different neighbourhoods
+                let i = (k.wrapping_mul(7919) + (k / n) * 104_729) % n;
+                out.push(pool[i].clone());
             }
         }
         "tfcmp" => {
@@ -777,6 +809,14 @@ pub fn gen(stream: &str, tier: &str, seed: u64) -> Vec<String> {
                         g.extend((0..(e.len() - hl - 7)).map(|_| rng.next() as u8));
                         out.push(format!("dec v3 {}", hex(&g)));
                         out.push(format!("poll v3 {} - eof", hex(&g)));
+                        // the refusal must come as soon as name and level have arrived: every kind of PREFIX that
+                        // contains them (blocking and async), also for CONNECTs with a 2-byte remaining length
+                        for cut in [hl + 7, hl + 8, (hl + 7 + e.len()) / 2, e.len() - 1] {
+                            if cut >= hl + 7 && cut < e.len() {
+                                out.push(format!("dec v3 {}", hex(&e[..cut])));
+                                out.push(format!("deca v3 {} eof", hex(&e[..cut])));
+                            }
+                        }
                     }
                 } else {
                     let p = gen_v3(&mut rng, 0, sz);
@@ -794,6 +834,12 @@ pub fn gen(stream: &str, tier: &str, seed: u64) -> Vec<String> {
                         g.extend((0..(e.len() - hl - plen)).map(|_| rng.next() as u8));
                         out.push(format!("dec v5 {}", hex(&g)));
                         out.push(format!("poll v5 {} - eof", hex(&g)));
+                        for cut in [hl + plen, hl + plen + 1, (hl + plen + e.len()) / 2, e.len() - 1] {
+                            if cut >= hl + plen && cut < e.len() {
+                                out.push(format!("dec v5 {}", hex(&e[..cut])));
+                                out.push(format!("deca v5 {} eof", hex(&e[..cut])));
+                            }
+                        }
                     }
                 }
             }
